@@ -40,6 +40,14 @@ DEFAULT_ORDER = {
 }
 
 
+class Lazy:
+    """A prelude item included only if `name` occurs in the query (see Obligation.sliced_decls)."""
+
+    def __init__(self, name: str, *texts: str):
+        self.name = name
+        self.texts = list(texts)
+
+
 @dataclasses.dataclass
 class Obligation:
     name: str  # "<function>#<kind>@<where>"
@@ -57,12 +65,41 @@ class Obligation:
     # subsets of `assumptions`: an `unsat` answer on a weaker hypothesis set is still a proof (sat there is ignored)
     alt_assumptions: typing.List[typing.List[str]] = dataclasses.field(default_factory=list)
 
+    def sliced_decls(self, body: typing.List[str]) -> typing.List[str]:
+        """Declarations may be `Lazy` prelude items: a function symbol with its defining axioms, included only when the
+        symbol occurs in the query (a conservative extension that is not mentioned cannot change the answer, and
+        leaving out its quantified axioms lets the solver answer `sat` with a model instead of `unknown`)."""
+        lazies = [d for d in self.decls if isinstance(d, Lazy)]
+        if not lazies:
+            return list(self.decls)  # type: ignore
+        text = " ".join(body) + " " + " ".join(d for d in self.decls if not isinstance(d, Lazy))
+        needed: typing.Set[str] = set()
+        changed = True
+        while changed:
+            changed = False
+            for lz in lazies:
+                if lz.name in needed:
+                    continue
+                if re.search(r"[( ]" + re.escape(lz.name) + r"[) ]", text):
+                    needed.add(lz.name)
+                    text += " " + " ".join(lz.texts)
+                    changed = True
+        out = []
+        for d in self.decls:
+            if isinstance(d, Lazy):
+                if d.name in needed:
+                    out.extend(d.texts)
+            else:
+                out.append(d)
+        return out
+
     def smt2(self, with_model: bool = True, assumptions: typing.Optional[typing.List[str]] = None) -> str:
         out = []
         out.append(f"(set-logic {self.logic or 'ALL'})")
         out.append("(set-option :produce-models true)")
-        out.extend(self.decls)
-        for a in (self.assumptions if assumptions is None else assumptions):
+        asm = self.assumptions if assumptions is None else assumptions
+        out.extend(self.sliced_decls(list(asm) + [self.goal]))
+        for a in asm:
             out.append(f"(assert {a})")
         if self.expect == "unsat":
             out.append(f"(assert (not {self.goal}))")
